@@ -16,8 +16,9 @@ EXTENDS Naturals, Integers, Sequences, FiniteSets, TLC, Json, IOUtils
 Trc == ndJsonDeserialize(IOEnv.TRACE)
 NLines == Len(Trc)
 VARIABLES l, x, data, fcls,   \* fcls[f]: content class of file f as last logged (-1: does not exist)
+          ref,                \* the answers of the first container probed in this execution (C12: all containers answer alike)
           lastKind, nviol, cnt, done
-vars == <<l, x, data, fcls, lastKind, nviol, cnt, done>>
+vars == <<l, x, data, fcls, ref, lastKind, nviol, cnt, done>>
 Ev == Trc[l]
 IsEvent(e) == l <= NLines /\ Ev.e = e /\ l' = l + 1
 Viol(prop, what) == PrintT(<<"TRACE-VIOLATION", prop, l, x, what>>)
@@ -33,15 +34,15 @@ UBrec(a, key, lo, hi) == IF lo >= hi THEN lo ELSE LET mid == (lo + hi) \div 2 IN
 LB(key) == LBrec(data, key, 0, Len(data))
 UB(key) == UBrec(data, key, 0, Len(data))
 
-TInit == l = 2 /\ x = -1 /\ data = <<>> /\ fcls = <<-1, -1>> /\ lastKind = "none" /\ nviol = 0
+TInit == l = 2 /\ x = -1 /\ data = <<>> /\ fcls = <<-1, -1>> /\ ref = <<>> /\ lastKind = "none" /\ nviol = 0
          /\ cnt = [probes |-> 0, containers |-> 0, files |-> 0] /\ done = FALSE
-TReset == IsEvent("Reset") /\ x' = Ev.x /\ data' = <<>> /\ fcls' = <<-1, -1>> /\ lastKind' = "none" /\ UNCHANGED <<nviol, cnt, done>>
-TData == IsEvent("Data") /\ data' = Ev.data /\ UNCHANGED <<x, fcls, lastKind, nviol, cnt, done>>
+TReset == IsEvent("Reset") /\ x' = Ev.x /\ data' = <<>> /\ fcls' = <<-1, -1>> /\ ref' = <<>> /\ lastKind' = "none" /\ UNCHANGED <<nviol, cnt, done>>
+TData == IsEvent("Data") /\ data' = Ev.data /\ UNCHANGED <<x, fcls, ref, lastKind, nviol, cnt, done>>
 TCreate == /\ IsEvent("Create") /\ lastKind' = Ev.kind
            /\ nviol' = nviol + CountFailed(<< <<Ev.out = "ok", "C12", "constructor_failed">> >>, 1)
            /\ cnt' = [cnt EXCEPT !.containers = @ + 1]
-           /\ UNCHANGED <<x, data, fcls, done>>
-TClose == IsEvent("Close") /\ lastKind' = "close" /\ UNCHANGED <<x, data, fcls, nviol, cnt, done>>
+           /\ UNCHANGED <<x, data, fcls, ref, done>>
+TClose == IsEvent("Close") /\ lastKind' = "close" /\ UNCHANGED <<x, data, fcls, ref, nviol, cnt, done>>
 \* a File line reports one file after the last action
 TFile ==
   /\ IsEvent("File")
@@ -59,23 +60,26 @@ TFile ==
               <<(Ev.exists = 1 /\ fcls[other] >= 0) => Ev.cls = fcls[other], "C12", "files_of_the_two_constructors_differ">> >>, 1)
         /\ fcls' = [fcls EXCEPT ![f] = IF Ev.exists = 1 THEN Ev.cls ELSE -1]
         /\ cnt' = [cnt EXCEPT !.files = @ + 1]
-  /\ UNCHANGED <<x, data, lastKind, done>>
+  /\ UNCHANGED <<x, data, ref, lastKind, done>>
 TSeq == /\ IsEvent("Seq")
-        /\ nviol' = nviol + CountFailed(<< <<Ev.seq = data /\ Ev.size = Len(data), "C11", "begin_end_size_do_not_expose_the_sequence">> >>, 1)
-        /\ UNCHANGED <<x, data, fcls, lastKind, cnt, done>>
+        /\ nviol' = nviol + CountFailed(<< <<Ev.seq = data /\ Ev.size = Len(data), "C11", "begin_end_size_do_not_expose_the_sequence">>,
+                                           <<Ev.seq = data, "C12", "container_does_not_hold_the_sequence">> >>, 1)
+        /\ UNCHANGED <<x, data, fcls, ref, lastKind, cnt, done>>
 \* rows: <<q, lower_bound, upper_bound, count, contains>>
 TProbe == /\ IsEvent("Probe")
           /\ nviol' = nviol + CountFailed(<<
                 <<\A i \in 1..Len(Ev.rows) : Ev.rows[i][2] = LB(Ev.rows[i][1]), "C11", "lower_bound">>,
                 <<\A i \in 1..Len(Ev.rows) : Ev.rows[i][3] = UB(Ev.rows[i][1]), "C11", "upper_bound">>,
                 <<\A i \in 1..Len(Ev.rows) : Ev.rows[i][4] = UB(Ev.rows[i][1]) - LB(Ev.rows[i][1]), "C11", "count">>,
-                <<\A i \in 1..Len(Ev.rows) : (Ev.rows[i][5] = 1) = (UB(Ev.rows[i][1]) > LB(Ev.rows[i][1])), "C11", "contains">> >>, 1)
+                <<\A i \in 1..Len(Ev.rows) : (Ev.rows[i][5] = 1) = (UB(Ev.rows[i][1]) > LB(Ev.rows[i][1])), "C11", "contains">>,
+                <<ref = <<>> \/ Ev.rows = ref, "C12", "containers_of_the_same_data_answer_differently">> >>, 1)
+          /\ ref' = (IF ref = <<>> THEN Ev.rows ELSE ref)
           /\ cnt' = [cnt EXCEPT !.probes = @ + Len(Ev.rows)]
           /\ UNCHANGED <<x, data, fcls, lastKind, done>>
-TEnd == IsEvent("End") /\ UNCHANGED <<x, data, fcls, lastKind, nviol, cnt, done>>
+TEnd == IsEvent("End") /\ UNCHANGED <<x, data, fcls, ref, lastKind, nviol, cnt, done>>
 TDone == /\ l = NLines + 1 /\ ~done /\ PrintT(<<"TRACE-DONE", NLines, nviol, 0>>)
          /\ \A f \in DOMAIN cnt : PrintT(<<"TRACE-COUNT", f, cnt[f]>>)
-         /\ done' = TRUE /\ UNCHANGED <<l, x, data, fcls, lastKind, nviol, cnt>>
+         /\ done' = TRUE /\ UNCHANGED <<l, x, data, fcls, ref, lastKind, nviol, cnt>>
 TNext == TReset \/ TData \/ TCreate \/ TClose \/ TFile \/ TSeq \/ TProbe \/ TEnd \/ TDone
 TSpec == TInit /\ [][TNext]_vars
 TraceAccepted == TLCGet("stats").diameter = NLines + 1
